@@ -138,6 +138,28 @@ func splitTopLevel(s, op string) (string, string, bool) {
 // `a ==> b` (right associative, lowest precedence) and `a <==> b`.
 func parseSpecExpr(s string) (ast.Expr, error) {
 	s = strings.TrimSpace(s)
+	// strip one pair of outer parentheses when they enclose the whole expression
+	for len(s) >= 2 && s[0] == '(' && s[len(s)-1] == ')' {
+		depth, wraps := 0, true
+		for i := 0; i < len(s); i++ {
+			switch s[i] {
+			case '(':
+				depth++
+			case ')':
+				depth--
+				if depth == 0 && i != len(s)-1 {
+					wraps = false
+				}
+			}
+			if !wraps {
+				break
+			}
+		}
+		if !wraps || !(strings.Contains(s, "==>")) {
+			break
+		}
+		s = strings.TrimSpace(s[1 : len(s)-1])
+	}
 	if l, r, ok := splitTopLevel(s, "<==>"); ok {
 		le, err := parseSpecExpr(l)
 		if err != nil {
